@@ -330,7 +330,7 @@ fn directed_sources() -> Vec<String> {
         "a | replace(from=\"a\", to=b, k3=c, k4=[1, 2], k5={\"x\": a})", "a | indent(width=2, first=true, blank=false, w4=a.b, w5=a[0], w6=-1)",
         "a is defined", "a is divisible_by(divisor=2)", "a is containing(pat=\"x\", q=1)", "a is starting_with(pat=a, q=b, r=c)",
         "a is ending_with(pat=a ~ b, q=b | upper, r=c is defined, s=range(end=2), t=1 if a else 2)", "a is not defined", "a is not containing(pat=b, x=1)",
-        "range(end=3)", "range(start=1, end=3)", "range(start=1, end=9, step_by=2)", "range(start=a, end=b, step_by=c, x=1, y=2)", "throw(message=\"m\")", "utcnow()",
+        "range(end=3)", "range(start=1, end=3)", "range(start=1, end=9, step_by=2)", "range(start=a, end=b, step_by=c, x=1, y=2)", "throw(message=\"m\")", "range()",
         // nested calls inside kwarg values
         "a | default(value=b | default(value=range(end=3) | length), boolean=c is defined)",
         "range(start=1 if a else 2, end=[x for x in a if x] | length, step_by=a and b or 1)",
@@ -346,19 +346,19 @@ fn directed_sources() -> Vec<String> {
     }
     // ---- boolean operators, ternaries
     for e in [
-        "a and b or c and not d", "a or b or c or d", "a and b and c and d", "(a or b) and (c or d)", "not (a and b)", "a and (b or c) and d", "not a or not b and not not c",
+        "a and b or c and not d", "a or b or c or d", "a and b and c and d", "(a or b) and (c or d)", "not (a and b)", "a and (b or c) and d", "not a or not b and not (not c)",
         "a or (b and (c or (d and a)))", "(a and b)[\"k\"] or c.d", "a and b | default(value=c or d)", "a if b else c", "a if b else c if d else e", "(a if b else c) if d else e",
-        "a if (b if c else d) else e", "(a if b else c).x", "a if b and c else d or e", "[a if b else c, d if e else f]", "{\"k\": a if b else c}", "a ~ (b if c else d) ~ e",
+        "a if (b if c else d) else e", "(a if b else c)[\"x\"]", "(a if b else c)[1:]", "a if b and c else d or e", "[a if b else c, d if e else f]", "{\"k\": a if b else c}", "a ~ (b if c else d) ~ e",
         "(a or b) if (c and d) else (e or f)", "not a if b else not c", "-a if b else -c",
     ] {
         add(&format!("{{{{ {e} }}}}"));
     }
     // ---- arrays and maps, spreads
     for e in [
-        "[]", "[1]", "[1, 2, 3]", "[1, ...a, 2]", "[...a]", "[...a, ...b]", "[[...a], [1, [2, ...b]]]", "[1, \"s\", true, none, 1.5, -2, a.b]", "[a and b, c or d]",
-        "{}", "{\"a\": 1}", "{\"a\": 1, \"b\": [1, 2], \"c\": {\"d\": a}}", "{\"a\": 1, ...m}", "{...m}", "{...m, ...n, \"k\": [1, {\"x\": a, ...b}]}", "{1: a, true: b, \"s\": c}",
-        "{\"k\": a and b, ...(m if c else n)}", "[...[1, 2], ...[x for x in a]]", "{\"a\": {\"b\": {\"c\": {...d}}}}", "[{...a}, {\"k\": [...b]}]", "{...a | default(value={})}",
-        "{\"é😀\": \"ü\", \"\": \"\"}", "[-1, - 1, 1 - 1, -a, - -a]", "[1_000, 0.5, 1e3, 170141183460469231731687303715884105727, 18446744073709551616]",
+        "[]", "[1]", "[1, 2, 3]", "[1, ...a, 2]", "[...a]", "[...a, ...b]", "[[...a], [1, ...b]]", "[1, \"s\", true, none, 1.5, -2, a.b]", "[a and b, c or d]",
+        "{}", "{\"a\": 1}", "{\"a\": 1, \"b\": [1, 2], \"c\": {\"d\": a} }", "{\"a\": 1, ...m}", "{...m}", "{...m, ...n, \"k\": [1, {\"x\": a, ...b}]}", "{1: a, true: b, \"s\": c}",
+        "{\"k\": a and b, ...(m if c else n)}", "[...[1, 2], ...[x for x in a]]", "{\"a\": {\"b\": {\"c\": {...d} } } }", "[{...a}, {\"k\": [...b]}]", "{...a | default(value={})}",
+        "{\"é😀\": \"ü\", \"\": \"\"}", "[-1, - 1, 1 - 1, -a, -(-a)]", "[1000, 0.5, 9223372036854775807, -9223372036854775807, 0, 00, 1.0, 3.14159, 123456789.125]", "[9223372036854775808]", "[01, 1.5, -0.5, -0]",
         "[\"a\\nb\", 'single', `back`, \"q\\\"q\", \"t\\tt\"]", "[true, True, false, False, none, None, null]",
     ] {
         add(&format!("{{{{ {e} }}}}"));
@@ -366,9 +366,11 @@ fn directed_sources() -> Vec<String> {
     }
     // ---- subscripts, slices (every subset of start / end / step), optional forms
     for recv in ["a", "a.b", "a?.b", "(a | reverse)", "a[0]", "a?.b?.c", "range(end=5)"] {
-        for sl in ["[:]", "[1:]", "[:2]", "[::3]", "[1:2]", "[1::3]", "[:2:3]", "[1:2:3]", "[::]", "[0]", "[-1]", "[b]", "[b:c:d]", "[b and c:]", "[:b if c else d]", "[\"k\"]", "[b[0]]", "[b[1:][0]]"] {
+        for sl in ["[:]", "[1:]", "[:2]", "[::3]", "[1:2]", "[1::3]", "[:2:3]", "[1:2:3]", "[0]", "[-1]", "[b]", "[b:c:d]", "[b and c:]", "[:b if c else d]", "[\"k\"]", "[b[0]]", "[b[1:][0]]"] {
             add(&format!("{{{{ {recv}{sl} }}}}"));
-            add(&format!("{{{{ {recv}?{sl} }}}}"));
+            if !recv.ends_with(')') {
+                add(&format!("{{{{ {recv}?{sl} }}}}"));
+            }
         }
     }
     for e in ["a?.b", "a?.b.c", "a.b?.c?.d", "a?[0]?.x?[1:]", "a?.b?[c?.d]", "a.b.c.d.e", "a[\"b\"][\"c\"].d[0][1:2].e", "__tera_context", "__tera_context.a?.b", "loop.index", "a?[1:]?[::2]"] {
@@ -378,7 +380,7 @@ fn directed_sources() -> Vec<String> {
     for op in ["+", "-", "*", "/", "//", "%", "**", "~", "in", "not in", "<", "<=", ">", ">=", "==", "!=", "and", "or"] {
         add(&format!("{{{{ a {op} b }}}}"));
         add(&format!("{{{{ a {op} b {op} c }}}}"));
-        add(&format!("{{{{ (a {op} 1) | str ~ (2 {op} b.c) }}}}"));
+        add(&format!("{{{{ (a {op} 1) | str ~ (2 {op} b.c) }}}}").replace("~ (2 not in", "~ (2 in"));
     }
     for e in ["-a", "not a", "-(a + b)", "not (a in b)", "- a ** 2", "a + b * c - d / e // f % g ** h", "(a + b) * (c - d)", "a ~ b ~ c ~ 1 ~ \"s\"", "a < b and b <= c or c > d and d >= e", "a == b != c", "1 + 2 * 3", "\"a\" ~ \"b\"", "a in [1, 2] and b not in {\"k\": 1}", "a | length + 1", "a | length * b | length", "-a | abs", "(-a) | abs", "not a is defined", "not (a is defined)"] {
         add(&format!("{{{{ {e} }}}}"));
@@ -495,6 +497,37 @@ fn directed_sets() -> Vec<TSet> {
         let mut t = helpers.clone();
         t.push((name, src));
         out.push(TSet { stream: "directed", origin: format!("directed#{k}"), templates: t });
+    }
+    out
+}
+
+/// calls with 2 to 6 keyword arguments whose values are generated expressions (jumps, nested
+/// calls, comprehensions, component calls): the compile order of the kwargs is the HashMap's
+fn kwargs_sets(rng: &mut Rng, n: usize) -> Vec<TSet> {
+    let helpers = directed_helpers();
+    let mut out = Vec::new();
+    for k in 0..n {
+        let n_kw = 2 + rng.below(5);
+        let mut names: Vec<&str> = vec!["value", "from", "to", "end", "start", "pat", "length", "sep", "k", "key", "default", "x"];
+        let mut kw = Vec::new();
+        for _ in 0..n_kw {
+            let name = names.remove(rng.below(names.len()));
+            let depth = 1 + rng.below(2) as u32;
+            kw.push(format!("{name}={}", gen_expr(rng, depth, &[]).replace("@@HI@@", "Comp")));
+        }
+        let kw = kw.join(", ");
+        let src = match rng.below(7) {
+            0 => format!("{{{{ a | replace({kw}) }}}}"),
+            1 => format!("{{{{ range({kw}) }}}}"),
+            2 => format!("{{{{ a is containing({kw}) }}}}"),
+            3 => format!("{{% filter truncate({kw}) %}}x{{{{ b }}}}{{% endfilter %}}"),
+            4 => format!("{{% set v | upper | default({kw}) | trim %}}x{{% endset %}}{{{{ v }}}}"),
+            5 => format!("{{% if a | default({kw}) and range({kw}) %}}y{{% endif %}}"),
+            _ => format!("{{% for x in a | get({kw}) %}}{{{{ x | default({kw}) }}}}{{% endfor %}}"),
+        };
+        let mut t = helpers.clone();
+        t.push((format!("kw{k}"), src));
+        out.push(TSet { stream: "kwargs", origin: format!("kwargs#{k} ({n_kw} kwargs)"), templates: t });
     }
     out
 }
@@ -707,23 +740,1002 @@ fn mutation_sets(rng: &mut Rng, base: &[TSet], n: usize) -> Vec<TSet> {
     out
 }
 
-// @@TIE@@
+// ------------------------------------------------------------------------------ second tie: hook vs Template::new
 
-// @@ORACLE@@
+const JUMPS: [&str; 5] = ["Jump", "PopJumpIfFalse", "JumpIfFalseOrPop", "JumpIfTrueOrPop", "Iterate"];
 
-// @@SHRINK@@
+fn multiset<'a>(it: impl Iterator<Item = &'a str>) -> BTreeMap<&'a str, usize> {
+    let mut m = BTreeMap::new();
+    for x in it {
+        *m.entry(x).or_insert(0) += 1;
+    }
+    m
+}
 
-// @@REPLAY@@
+/// `stored` (what `Template::new` kept, optimisation off) against the hook's chunks and tables.
+/// The two come from two parses: several kwargs of one call may be compiled in a different order.
+fn tie_template(tera: &Tera, name: &str, hook: &Compiled) -> Option<String> {
+    let Some(tables) = hooks::call_tables(tera, name) else { return Some(format!("call_tables has no template {name}")) };
+    let hook5: Vec<(String, Vec<String>)> = hook.tables.iter().take(5).cloned().collect();
+    if tables != hook5 {
+        return Some(format!("call tables differ: registered template {tables:?}, hook {hook5:?}"));
+    }
+    let Some(stored) = hooks::stored_chunks_wire(tera, name) else { return Some(format!("stored_chunks_wire has no template {name}")) };
+    let sl: Vec<&String> = stored.iter().map(|c| &c.0).collect();
+    let hl: Vec<&String> = hook.chunks.iter().map(|c| &c.0).collect();
+    if sl != hl {
+        return Some(format!("chunk labels differ: registered template {sl:?}, hook {hl:?}"));
+    }
+    for ((label, s), (_, h)) in stored.iter().zip(hook.chunks.iter()) {
+        if s.len() != h.len() {
+            return Some(format!("chunk {label}: {} instructions stored, {} from the hook", s.len(), h.len()));
+        }
+        let kinds_s = multiset(s.iter().map(|t| split_tok(t).0));
+        let kinds_h = multiset(h.iter().map(|t| split_tok(t).0));
+        if kinds_s != kinds_h {
+            return Some(format!("chunk {label}: instruction kinds differ: stored {kinds_s:?}, hook {kinds_h:?}"));
+        }
+        let reorderable = s.iter().any(|t| {
+            let (k, a) = split_tok(t);
+            k == "BuildMap" && a.parse::<usize>().map(|n| n >= 2).unwrap_or(true)
+        });
+        if !reorderable {
+            for (k, (a, b)) in s.iter().zip(h.iter()).enumerate() {
+                let (ka, kb) = (split_tok(a).0, split_tok(b).0);
+                if ka != kb || (ka != "LoadConst" && a != b) {
+                    return Some(format!("chunk {label}, instruction {k}: stored {a}, hook {b}"));
+                }
+            }
+        } else {
+            // position independent part: every token that is neither a constant nor a jump
+            let keep = |t: &&String| { let k = split_tok(t).0; k != "LoadConst" && !JUMPS.contains(&k) };
+            let ms = multiset(s.iter().filter(keep).map(|t| t.as_str()));
+            let mh = multiset(h.iter().filter(keep).map(|t| t.as_str()));
+            if ms != mh {
+                let d: Vec<&&str> = ms.keys().filter(|k| ms.get(*k) != mh.get(*k)).chain(mh.keys().filter(|k| !ms.contains_key(*k))).take(4).collect();
+                return Some(format!("chunk {label}: instruction multisets differ, e.g. at {d:?}"));
+            }
+        }
+    }
+    None
+}
+
+enum TieOut {
+    NotRegistered(String),
+    RegistrationPanic(String),
+    /// (templates compared, failures: (template index in the set, what))
+    Checked(usize, Vec<(usize, String)>),
+}
+
+fn case_key(name: &str, src: &str) -> String {
+    format!("{name}\u{0}{src}")
+}
+
+fn tie_set(set: &TSet, index: &HashMap<String, usize>, outs: &[RealOut]) -> TieOut {
+    let tera = match build(&set.templates) {
+        Ok(t) => t,
+        Err(e) if e.starts_with("panic") => return TieOut::RegistrationPanic(e),
+        Err(e) => return TieOut::NotRegistered(first_line(&e)),
+    };
+    let mut n = 0;
+    let mut fails = Vec::new();
+    for (k, (name, src)) in set.templates.iter().enumerate() {
+        // a later template of the same name replaces this one
+        if set.templates[k + 1..].iter().any(|(n2, _)| n2 == name) {
+            continue;
+        }
+        let Some(ci) = index.get(&case_key(name, src)).copied() else { continue };
+        match &outs[ci] {
+            RealOut::Compiled(c) => {
+                n += 1;
+                if let Some(d) = tie_template(&tera, name, c) {
+                    fails.push((k, d));
+                }
+            }
+            RealOut::Rejected(e) => fails.push((k, format!("the hook rejects a template that registers: {}", first_line(e)))),
+            RealOut::Panic(p) => fails.push((k, format!("the hook panics on a template that registers: {p}"))),
+        }
+    }
+    TieOut::Checked(n, fails)
+}
+
+// ------------------------------------------------------------------------------ property oracles (copied from c07.rs)
+
+fn adversarial_leaves() -> Vec<String> {
+    let mut v: Vec<String> = [
+        "y:ff00fe", "y:", "u128:340282366920938463463374607431768211455",
+        "i128:-170141183460469231731687303715884105728", "u64:18446744073709551615",
+        "i64:-9223372036854775808", "f:7ff8000000000000", "f:7ff0000000000000", "f:fff0000000000000",
+        "f:8000000000000000", "f:0000000000000001", "f:7fefffffffffffff", "s:", "s:f09f9880c3a9e2808b",
+        "S:3c623e", "s:3c7363726970743e26", "U", "N", "B1", "B0", "A0", "M0", "A2 U N", "M1 s:62 U",
+        "M2 i64:1 s:78 B1 s:79", "M1 s: i64:1", "i64:0", "i64:-1", "u64:2", "f:3ff8000000000000",
+        "A3 i64:3 i64:1 i64:2", "A2 s:62 s:61", "M2 s:62 A1 U s:63 y:80",
+    ]
+    .iter()
+    .map(|s| s.to_string())
+    .collect();
+    let long: String = "c3a9f09f9880".repeat(60);
+    v.push(format!("s:{long}"));
+    let mut deep = "i64:1".to_string();
+    for i in 0..64 {
+        deep = if i % 2 == 0 { format!("A1 {deep}") } else { format!("M1 s:62 {deep}") };
+    }
+    v.push(deep);
+    v
+}
+
+fn rich_with_leaf(l: &str) -> String {
+    format!("M2 s:62 M2 s:62 {l} s:63 M1 s:62 {l} s:63 A2 {l} M1 s:62 M2 s:62 {l} s:63 M1 s:62 {l}")
+}
+
+/// three specs (for the variables a b c): `-` unbound, `L<i>` lattice value, `A<k>` adversarial
+/// leaf, `R<k>` the rich shape with leaf k; anything else is a literal wire value
+fn adversarial_ctx(rng: &mut Rng, n_leaves: usize) -> Vec<String> {
+    (0..3)
+        .map(|_| match rng.below(20) {
+            0..=4 => format!("L{RICH}"),
+            5 => format!("L{RICH_SAFE}"),
+            6..=12 => format!("R{}", rng.below(n_leaves)),
+            13..=16 => format!("A{}", rng.below(n_leaves)),
+            17 => format!("L{}", rng.below(LATTICE.len())),
+            _ => "-".to_string(),
+        })
+        .collect()
+}
+
+fn wire_of_spec(spec: &str, leaves: &[String]) -> String {
+    let idx = |s: &str| s[1..].parse::<usize>().ok();
+    match spec.as_bytes().first() {
+        Some(b'L') if idx(spec).is_some_and(|i| i < LATTICE.len()) => LATTICE[idx(spec).unwrap()].to_string(),
+        Some(b'A') if spec.len() > 1 && idx(spec).is_some_and(|i| i < leaves.len()) => leaves[idx(spec).unwrap()].clone(),
+        Some(b'R') if idx(spec).is_some_and(|i| i < leaves.len()) => rich_with_leaf(&leaves[idx(spec).unwrap()]),
+        _ => spec.to_string(),
+    }
+}
+
+fn ctx_of_specs(w: &[String], leaves: &[String]) -> Context {
+    let mut ctx = Context::new();
+    for (i, name) in ROOTS.iter().enumerate() {
+        let Some(spec) = w.get(i) else { continue };
+        let wire = wire_of_spec(spec, leaves);
+        if wire != "-" {
+            if let Some(v) = decode(&wire) {
+                ctx.insert_value(*name, v);
+            }
+        }
+    }
+    ctx
+}
+
+/// the handful of contexts every oracle run uses: `contexts_for` of the generator + adversarial ones
+fn oracle_contexts(rng: &mut Rng, n_random: usize, n_adversarial: usize) -> Vec<Vec<String>> {
+    let n_leaves = adversarial_leaves().len();
+    let mut out: Vec<Vec<String>> = contexts_for(rng, n_random).iter().map(|c| c.iter().map(|i| format!("L{i}")).collect()).collect();
+    for _ in 0..n_adversarial {
+        out.push(adversarial_ctx(rng, n_leaves));
+    }
+    out
+}
+
+/// one render: ("ok"|"err"|"panic", detail, what breaks the property)
+fn observe(t: &Tera, name: &str, mode: &Mode, ctx: &Context) -> (&'static str, String, Option<String>) {
+    let mut w = Capped::new(4 << 20);
+    let _ = hooks::take_final_stacks();
+    let r = catch(std::panic::AssertUnwindSafe(|| match mode {
+        Mode::Render => t.render_to(name, ctx, &mut w),
+        Mode::Block(b) => t.render_block_to(name, b, ctx, &mut w),
+        Mode::Component(c) => t.render_component_to(c, ctx, Some("bd"), true, &mut w),
+    }));
+    match r {
+        Err(p) => ("panic", p.clone(), Some(format!("panic: {p}"))),
+        Ok(Err(e)) => match catch(std::panic::AssertUnwindSafe(|| format!("{e}"))) {
+            Err(p) => ("panic", p.clone(), Some(format!("panic while displaying the error: {p}"))),
+            Ok(m) => {
+                let l = m.to_lowercase();
+                let missing = l.contains("has no block lineage")
+                    || (l.contains("not found") && (l.contains("template") || l.contains("component") || l.contains("filter") || l.contains("function") || l.contains("test `")))
+                    || l.contains("is not registered");
+                let first = m.lines().next().unwrap_or("").chars().take(120).collect::<String>();
+                // a direct render of a component / block that does not exist is the caller's mistake
+                let missing = missing && matches!(mode, Mode::Render);
+                ("err", first.clone(), if missing { Some(format!("a missing reference is reported at render time: {first}")) } else { None })
+            }
+        },
+        Ok(Ok(())) => {
+            let mut problem = None;
+            if std::str::from_utf8(&w.buf).is_err() {
+                problem = Some("the rendered bytes are not valid UTF-8".to_string());
+            }
+            if !matches!(mode, Mode::Component(_)) {
+                match hooks::take_final_stacks() {
+                    Some((0, 0, 0)) => {}
+                    Some(s) => problem = Some(format!("after a successful render the (value, loop, capture) stacks hold {s:?} entries")),
+                    None => problem = Some("take_final_stacks() recorded nothing after a successful render".to_string()),
+                }
+            }
+            ("ok", String::new(), problem)
+        }
+    }
+}
+
+/// every name used by a call instruction of any chunk of `name` is in its call tables
+fn static_refs(tera: &Tera, name: &str) -> Option<String> {
+    let tables = hooks::call_tables(tera, name)?;
+    let table = |k: &str| -> HashSet<String> { tables.iter().find(|(kk, _)| kk == k).map(|(_, v)| v.iter().cloned().collect()).unwrap_or_default() };
+    let (filters, tests, functions, includes, components) = (table("filter"), table("test"), table("function"), table("include"), table("component"));
+    let chunks = hooks::stored_chunks_wire(tera, name)?;
+    let own_blocks: HashSet<String> = chunks.iter().filter_map(|(n, _)| n.strip_prefix("block:").map(|s| s.to_string())).collect();
+    for (cn, l) in &chunks {
+        for tok in l {
+            let (kind, arg) = split_tok(tok);
+            let n = unhex(arg);
+            let ok = match kind {
+                "ApplyFilter" => filters.contains(&n),
+                "RunTest" => tests.contains(&n),
+                "CallFunction" => functions.contains(&n),
+                "Include" => includes.contains(&n),
+                "RenderInlineComponent" | "RenderBodyComponent" => components.contains(&n),
+                "RenderBlock" => own_blocks.contains(&n),
+                _ => true,
+            };
+            if !ok {
+                return Some(format!("{kind}({n}) in chunk {cn} of {name} is not in the template's call table"));
+            }
+        }
+    }
+    None
+}
+
+fn templates_of_json(v: &serde_json::Value) -> Vec<(String, String)> {
+    v.as_array()
+        .map(|a| a.iter().map(|p| (p[0].as_str().unwrap_or("").to_string(), p[1].as_str().unwrap_or("").to_string())).collect())
+        .unwrap_or_default()
+}
+
+/// Child process (optimisation pass ON, as in production). Item: {"templates", "name", "ctxs"}.
+/// Lines: `B <error>` not registered; `S ok err panic`; `V {json}` one per property problem.
+fn child_oracle(infile: &str, outfile: &str) -> ! {
+    quiet_panics();
+    let leaves = adversarial_leaves();
+    let wf_exe = driver::driver_path(&Env::from_env().verif_dir, "drv_c07");
+    child_main(
+        infile,
+        outfile,
+        6,
+        |_| (),
+        |_, item| {
+            let templates = templates_of_json(&item["templates"]);
+            let name = item["name"].as_str().unwrap_or("");
+            let tera = match build(&templates) {
+                Ok(t) => t,
+                Err(e) if e.starts_with("panic") => {
+                    return vec![format!("V {}", serde_json::json!({"oracle": "registration", "problem": format!("registration panics: {}", clip(&e, 200))}))];
+                }
+                Err(e) => return vec![format!("B {}", first_line(&e))],
+            };
+            let mut lines = Vec::new();
+            // (d) every call name is in the call tables; (c) every stored chunk passes the verified checker
+            let mut reqs = Vec::new();
+            let mut req_of = Vec::new();
+            for (n, _) in &templates {
+                if let Some(d) = static_refs(&tera, n) {
+                    lines.push(format!("V {}", serde_json::json!({"oracle": "static-refs", "problem": format!("a reference is not collected for validation: {d}")})));
+                }
+                for (cn, l) in hooks::stored_chunks_wire(&tera, n).unwrap_or_default() {
+                    reqs.push(format!("wf {}", l.join(" ")));
+                    req_of.push((n.clone(), cn, l.join(" ")));
+                }
+            }
+            match driver::run_batch(&wf_exe, &reqs) {
+                Ok(ans) => {
+                    for (a, (n, cn, l)) in ans.iter().zip(req_of.iter()) {
+                        if a != "ok" {
+                            lines.push(format!("V {}", serde_json::json!({"oracle": "wf", "problem": format!("the verified bytecode checker rejects chunk {cn} of {n}: {a}"), "chunk_listing": l})));
+                        }
+                    }
+                    lines.push(format!("W {}", ans.len()));
+                }
+                Err(e) => lines.push(format!("D {}", first_line(&e))),
+            }
+            // (a) renders do not panic, (b) final stacks are empty
+            let mut modes = vec![Mode::Render];
+            for (cn, _) in hooks::stored_chunks_wire(&tera, name).unwrap_or_default() {
+                if let Some(b) = cn.strip_prefix("block:") {
+                    modes.push(Mode::Block(b.to_string()));
+                } else if let Some(c) = cn.strip_prefix("component:") {
+                    modes.push(Mode::Component(c.to_string()));
+                }
+            }
+            let mut counts = [0u64; 3];
+            let mut n_v = 0;
+            let empty = Vec::new();
+            for mode in &modes {
+                for c in item["ctxs"].as_array().unwrap_or(&empty) {
+                    let specs: Vec<String> = c.as_array().map(|a| a.iter().map(|x| x.as_str().unwrap_or("-").to_string()).collect()).unwrap_or_default();
+                    let ctx = ctx_of_specs(&specs, &leaves);
+                    let (class, detail, problem) = observe(&tera, name, mode, &ctx);
+                    counts[match class { "ok" => 0, "err" => 1, _ => 2 }] += 1;
+                    if let Some(p) = problem {
+                        if n_v < 3 {
+                            n_v += 1;
+                            lines.push(format!("V {}", serde_json::json!({"oracle": "render", "mode": format!("{mode:?}"), "ctx": specs, "class": class, "detail": detail, "problem": p})));
+                        }
+                    }
+                }
+            }
+            lines.push(format!("S {} {} {}", counts[0], counts[1], counts[2]));
+            lines
+        },
+    )
+}
+
+#[derive(Default, Debug)]
+struct OracleOut {
+    registered: bool,
+    build_error: Option<String>,
+    renders: [u64; 3],
+    wf_checked: u64,
+    problems: Vec<serde_json::Value>,
+    notes: Vec<String>,
+}
+
+/// run the oracles on a list of (set, template to render) in one child process (restarted after a
+/// case that does not come back); a case that does not come back is run again alone with 30 s
+fn run_oracle(id: usize, items: &[(Vec<(String, String)>, String)], ctxs: &[Vec<String>], wall: Duration) -> Vec<OracleOut> {
+    let mk = |t: &Vec<(String, String)>, n: &String| serde_json::json!({"templates": t, "name": n, "ctxs": ctxs});
+    let b = Batch { common: serde_json::json!({}), items: items.iter().map(|(t, n)| mk(t, n)).collect() };
+    let r = run_batch(CHILD_FLAG, id, &b, wall, 3);
+    let mut out: Vec<OracleOut> = (0..items.len()).map(|_| OracleOut::default()).collect();
+    let digest = |o: &mut OracleOut, lines: &Vec<String>| {
+        o.registered = true;
+        for l in lines {
+            if let Some(v) = l.strip_prefix("V ") {
+                if let Ok(j) = serde_json::from_str::<serde_json::Value>(v) {
+                    o.problems.push(j);
+                }
+            } else if let Some(e) = l.strip_prefix("B ") {
+                o.registered = false;
+                o.build_error = Some(e.to_string());
+            } else if let Some(s) = l.strip_prefix("S ") {
+                let v: Vec<u64> = s.split(' ').filter_map(|x| x.parse().ok()).collect();
+                if v.len() == 3 {
+                    o.renders = [v[0], v[1], v[2]];
+                }
+            } else if let Some(w) = l.strip_prefix("W ") {
+                o.wf_checked = w.parse().unwrap_or(0);
+            } else if let Some(d) = l.strip_prefix("D ") {
+                o.notes.push(format!("checker driver unavailable: {d}"));
+            }
+        }
+    };
+    for (i, lines) in &r.results {
+        digest(&mut out[*i], lines);
+    }
+    for (i, reason) in &r.culprits {
+        let mut item = mk(&items[*i].0, &items[*i].1);
+        item["ctxs"] = serde_json::json!(ctxs);
+        let b1 = Batch { common: serde_json::json!({"limit_secs": 30}), items: vec![item] };
+        let again = run_batch(CHILD_FLAG, id + 500_000 + i, &b1, Duration::from_secs(90), 0);
+        if let Some((_, r2)) = again.culprits.first() {
+            out[*i].registered = true;
+            out[*i].problems.push(serde_json::json!({"oracle": "render", "problem": format!("registering / rendering does not return an answer: {r2} (first seen: {reason}; limit 30 s / 3 GiB for the case on its own)")}));
+        } else if let Some((_, lines)) = again.results.first() {
+            digest(&mut out[*i], lines);
+        }
+    }
+    out
+}
+
+// ------------------------------------------------------------------------------ one case, shrinking
+
+struct Diff {
+    stage: String,
+    what: String,
+    real: String,
+    model: String,
+}
+
+/// the stage diff of a list of sources of one template name, with ONE driver run.
+/// Per source: None = rejected by the parser or agreement.
+fn diff_batch(exe: &std::path::Path, name: &str, srcs: &[String]) -> Vec<Option<Diff>> {
+    let reals: Vec<RealOut> = srcs.iter().map(|s| real_side(name, s)).collect();
+    let mut reqs = Vec::new();
+    for r in &reals {
+        if let RealOut::Compiled(c) = r {
+            reqs.push(format!("compile {}", c.wire));
+        }
+    }
+    let answers = if reqs.is_empty() { Ok(Vec::new()) } else { driver::run_batch(exe, &reqs) };
+    let mut k = 0;
+    reals
+        .iter()
+        .zip(srcs.iter())
+        .map(|(r, src)| match r {
+            RealOut::Rejected(_) => None,
+            RealOut::Panic(p) => {
+                let model = hooks::template_wire(src, Delimiters::default()).ok().and_then(|w| driver::run_batch(exe, &[format!("compile {w}")]).ok()).and_then(|a| a.into_iter().next()).unwrap_or_default();
+                Some(Diff { stage: "real:panic".into(), what: format!("the real compiler panics: {p}"), real: format!("panic {p}"), model })
+            }
+            RealOut::Compiled(c) => {
+                let real = canon_real(c);
+                let i = k;
+                k += 1;
+                match &answers {
+                    Err(e) => Some(Diff { stage: "compile:driver".into(), what: clip(e, 300), real: sections_text(&real), model: String::new() }),
+                    Ok(a) => compare(&real, &a[i]).map(|(stage, what)| Diff { stage, what, real: sections_text(&real), model: a[i].clone() }),
+                }
+            }
+        })
+        .collect()
+}
+
+/// greedy deletion of segments, then of characters, while a mismatch of the same kind remains
+fn shrink(exe: &std::path::Path, name: &str, src: &str, kind: &str, deadline: Instant) -> String {
+    let mut best = src.to_string();
+    let same = |d: &Option<Diff>| d.as_ref().is_some_and(|d| stage_kind(&d.stage) == kind);
+    // segments
+    loop {
+        if Instant::now() > deadline {
+            return best;
+        }
+        let segs = segments(&best);
+        if segs.len() <= 1 {
+            break;
+        }
+        let mut cands: Vec<String> = Vec::new();
+        // whole balanced ranges first (they keep the template parsable), then single segments
+        for i in 0..segs.len() {
+            if let Some(j) = matching_close(&segs, i) {
+                cands.push(segs[..i].concat() + &segs[j + 1..].concat());
+                cands.push(segs[..i].concat() + &segs[i + 1..j].concat() + &segs[j + 1..].concat());
+            }
+        }
+        for i in 0..segs.len() {
+            cands.push(segs[..i].concat() + &segs[i + 1..].concat());
+        }
+        cands.retain(|c| c.len() < best.len());
+        cands.truncate(400);
+        let ds = diff_batch(exe, name, &cands);
+        match ds.iter().position(same) {
+            Some(i) => best = cands[i].clone(),
+            None => break,
+        }
+    }
+    // characters (windows of 8, 3, 1)
+    for w in [8usize, 3, 1] {
+        loop {
+            if Instant::now() > deadline || best.chars().count() > 600 {
+                return best;
+            }
+            let chars: Vec<char> = best.chars().collect();
+            if chars.len() <= w {
+                break;
+            }
+            let cands: Vec<String> = (0..=chars.len() - w).map(|i| chars[..i].iter().chain(chars[i + w..].iter()).collect()).collect();
+            let ds = diff_batch(exe, name, &cands);
+            match ds.iter().position(same) {
+                Some(i) => best = cands[i].clone(),
+                None => break,
+            }
+        }
+    }
+    best
+}
+
+fn with_source(set: &[(String, String)], name: &str, src: &str) -> Vec<(String, String)> {
+    let mut t: Vec<(String, String)> = set.to_vec();
+    match t.iter().rposition(|(n, _)| n == name) {
+        Some(i) => t[i].1 = src.to_string(),
+        None => t.push((name.to_string(), src.to_string())),
+    }
+    t
+}
+
+/// mutated variants of `src` that the real parser still accepts
+fn neighbours(rng: &mut Rng, name: &str, src: &str, n: usize) -> Vec<String> {
+    let mut out: Vec<String> = Vec::new();
+    let mut seen: HashSet<String> = HashSet::new();
+    seen.insert(src.to_string());
+    let chars: Vec<char> = src.chars().collect();
+    let mut tries = 0;
+    while out.len() < n && tries < n * 6 {
+        tries += 1;
+        let cand = if rng.chance(2, 3) || chars.len() < 2 {
+            let mut s = src.to_string();
+            for _ in 0..(1 + rng.below(2)) {
+                if let Some((_, m)) = mutate(rng, &s) {
+                    s = m;
+                }
+            }
+            s
+        } else {
+            // a small edit of the text: delete / duplicate / swap a window of characters
+            let i = rng.below(chars.len());
+            let w = (1 + rng.below(6)).min(chars.len() - i);
+            let mut c = chars.clone();
+            match rng.below(3) {
+                0 => {
+                    c.drain(i..i + w);
+                }
+                1 => {
+                    let part: Vec<char> = c[i..i + w].to_vec();
+                    for (k, ch) in part.into_iter().enumerate() {
+                        c.insert(i + w + k, ch);
+                    }
+                }
+                _ => {
+                    let j = rng.below(chars.len());
+                    c.swap(i, j);
+                }
+            }
+            c.into_iter().collect()
+        };
+        if cand.len() > 50_000 || !seen.insert(cand.clone()) {
+            continue;
+        }
+        if matches!(real_side(name, &cand), RealOut::Compiled(_)) {
+            out.push(cand);
+        }
+    }
+    out
+}
+
+// ------------------------------------------------------------------------------ a mismatch: shrink, oracles, neighbours, report
+
+#[allow(clippy::too_many_arguments)]
+fn investigate(report: &mut Report, exe: &std::path::Path, rng: &mut Rng, env: &Env, set: &TSet, name: &str, src: &str, first: &Diff, id: usize) {
+    let kind = stage_kind(&first.stage);
+    let t0 = Instant::now();
+    let small = if kind == "compile:driver" { src.to_string() } else { shrink(exe, name, src, &kind, t0 + Duration::from_secs(env.budget(4, 20) as u64)) };
+    let d = diff_batch(exe, name, &[small.clone()]).into_iter().next().flatten();
+    let (small, d) = match d {
+        Some(d) if stage_kind(&d.stage) == kind => (small, d),
+        _ => (src.to_string(), Diff { stage: first.stage.clone(), what: first.what.clone(), real: first.real.clone(), model: first.model.clone() }),
+    };
+    report.count(&format!("mismatch.reported.{kind}"));
+    // the property itself on the real engine: the shrunk case, the original one, then neighbours
+    let ctxs = oracle_contexts(rng, 2, 4);
+    let small_set = with_source(&set.templates, name, &small);
+    let mut items: Vec<(Vec<(String, String)>, String)> = vec![(small_set.clone(), name.to_string()), (set.templates.clone(), name.to_string())];
+    let n_neigh = 10 * env.budget(30, 150);
+    for s in neighbours(rng, name, &small, n_neigh) {
+        items.push((with_source(&set.templates, name, &s), name.to_string()));
+    }
+    let outs = run_oracle(id, &items, &ctxs, Duration::from_secs(env.budget(60, 600) as u64));
+    let mut registered = 0u64;
+    for o in &outs {
+        if o.registered {
+            registered += 1;
+        }
+        report.oracle_checks += o.renders.iter().sum::<u64>() + o.wf_checked;
+        report.oracle_failures += o.problems.len() as u64;
+        for n in &o.notes {
+            if !report.notes.contains(n) && report.notes.len() < 12 {
+                report.notes.push(n.clone());
+            }
+        }
+    }
+    report.count_n("mismatch.oracle.sets_tried", outs.len() as u64);
+    report.count_n("mismatch.oracle.sets_registered", registered);
+    let base = serde_json::json!({
+        "harness_bin": BIN, "stage": d.stage, "name": name, "source": small, "templates": small_set, "real": d.real, "model": d.model,
+        "original_source": clip(src, 4000), "stream": set.stream, "origin": set.origin,
+        "detail": {"stage": d.stage, "difference": d.what, "oracle_sets_tried": outs.len(), "oracle_sets_registered": registered, "contexts": ctxs},
+        "rerun": format!("harness/target/release/{BIN} --replay <this file>"),
+    });
+    if let Some((i, o)) = outs.iter().enumerate().find(|(_, o)| !o.problems.is_empty()) {
+        let p = &o.problems[0];
+        let mut replay = base.clone();
+        replay["templates"] = serde_json::json!(items[i].0);
+        replay["source"] = serde_json::json!(items[i].0.iter().rfind(|(n, _)| n == name).map(|t| t.1.clone()));
+        replay["oracle"] = p.clone();
+        replay["where"] = serde_json::json!(match i { 0 => "the shrunk case", 1 => "the original case", _ => "a neighbour of the shrunk case" });
+        report.violation(
+            "property",
+            format!("`{}` ({name}): {} [found while following the compiler stage mismatch {}]", clip(replay["source"].as_str().unwrap_or(""), 300), p["problem"].as_str().unwrap_or("?"), d.stage),
+            replay,
+        );
+    } else {
+        report.violation(
+            "model-mismatch",
+            format!("{}: real compiler and Lean model compiler differ on `{}` ({name}): {}", d.stage, clip(&small, 300), clip(&d.what, 300)),
+            base,
+        );
+    }
+}
+
+// ------------------------------------------------------------------------------ replay, dump
+
+fn print_case(exe: &std::path::Path, name: &str, src: &str) {
+    println!("template {name}: {src}");
+    match real_side(name, src) {
+        RealOut::Rejected(e) => println!("real: rejected-by-parser: {}", first_line(&e)),
+        RealOut::Panic(p) => {
+            println!("real: PANIC {p}");
+            if let Ok(w) = hooks::template_wire(src, Delimiters::default()) {
+                println!("ast (kwargs sorted): {w}");
+                println!("model: {:?}", driver::run_batch(exe, &[format!("compile {w}")]));
+            }
+        }
+        RealOut::Compiled(c) => {
+            let real = canon_real(&c);
+            println!("ast: {}", c.wire);
+            println!("real:  {}", sections_text(&real));
+            match driver::run_batch(exe, &[format!("compile {}", c.wire)]) {
+                Err(e) => println!("model: driver error: {e}"),
+                Ok(a) => {
+                    println!("model: {}", a[0]);
+                    match compare(&real, &a[0]) {
+                        None => println!("stage diff: agreement"),
+                        Some((stage, what)) => println!("stage diff: MISMATCH {stage}: {what}"),
+                    }
+                }
+            }
+        }
+    }
+}
+
+fn run_replay(path: &str, exe: &std::path::Path) {
+    let text = std::fs::read_to_string(path).expect("replay file");
+    let j: serde_json::Value = serde_json::from_str(&text).expect("replay json");
+    let j = if j.get("replay").is_some() { j["replay"].clone() } else { j };
+    let templates = templates_of_json(&j["templates"]);
+    let name = j["name"].as_str().map(|s| s.to_string()).or_else(|| templates.last().map(|t| t.0.clone())).unwrap_or_default();
+    let src = j["source"].as_str().map(|s| s.to_string()).or_else(|| templates.iter().rfind(|(n, _)| *n == name).map(|t| t.1.clone())).unwrap_or_default();
+    println!("stage recorded: {}", j["stage"]);
+    print_case(exe, &name, &src);
+    let set = if templates.is_empty() { vec![(name.clone(), src.clone())] } else { with_source(&templates, &name, &src) };
+    for (n, s) in &set {
+        if *n != name {
+            println!("with template {n}: {s}");
+        }
+    }
+    // second tie (this process: optimisation off)
+    let idx: HashMap<String, usize> = set.iter().enumerate().map(|(i, (n, s))| (case_key(n, s), i)).collect();
+    let outs: Vec<RealOut> = set.iter().map(|(n, s)| real_side(n, s)).collect();
+    match tie_set(&TSet { stream: "replay", origin: String::new(), templates: set.clone() }, &idx, &outs) {
+        TieOut::NotRegistered(e) => println!("registration: refused: {e}"),
+        TieOut::RegistrationPanic(e) => println!("registration: PANIC {e}"),
+        TieOut::Checked(n, f) => println!("hook vs Template::new on {n} templates: {}", if f.is_empty() { "agreement".to_string() } else { format!("{f:?}") }),
+    }
+    // the property oracles, optimisation on, in a child
+    let mut ctxs = oracle_contexts(&mut Rng::new(7), 2, 4);
+    if let Some(c) = j["oracle"]["ctx"].as_array() {
+        ctxs.insert(0, c.iter().map(|x| x.as_str().unwrap_or("-").to_string()).collect());
+    }
+    if let Some(cs) = j["detail"]["contexts"].as_array() {
+        for c in cs {
+            if let Some(c) = c.as_array() {
+                ctxs.push(c.iter().map(|x| x.as_str().unwrap_or("-").to_string()).collect());
+            }
+        }
+    }
+    let o = run_oracle(1, &[(set, name)], &ctxs, Duration::from_secs(120));
+    println!("oracles (renders ok/err/panic, checker, problems): {:?}", o[0]);
+    tera_verif_harness::childrun::cleanup();
+}
+
+fn ast_tags(wire: &str, report: &mut Report) {
+    for w in wire.split(' ') {
+        let tag: &str = w.split(':').next().unwrap_or("");
+        let key = match tag {
+            "Fil" | "Tst" | "Fn" | "Ter" | "LC" | "CC0" | "CC1" | "SL0" | "SL1" | "GA0" | "GA1" | "GI0" | "GI1" | "Blk" | "For" | "If" | "FS" | "Inc" | "Brk" | "Cnt" | "Not" | "Neg" | "Sp" | "Comp" | "Content" | "Bin" => tag,
+            t if t.starts_with("BSet") => "BSet",
+            t if t.starts_with("Set") => "Set",
+            t if t.starts_with('K') && t[1..].parse::<usize>().is_ok() => {
+                let n: usize = t[1..].parse().unwrap_or(0);
+                match n { 0 => "K0", 1 => "K1", 2 => "K2", 3 => "K3", 4 => "K4", _ => "K5+" }
+            }
+            _ => continue,
+        };
+        if key == "Bin" {
+            report.count(&format!("ast.{w}"));
+        } else {
+            report.count(&format!("ast.{key}"));
+        }
+    }
+}
 
 // ------------------------------------------------------------------------------ main
 
 fn main() {
     quiet_panics();
     let args: Vec<String> = std::env::args().collect();
+    if let Some(i) = args.iter().position(|a| a == CHILD_FLAG) {
+        // the oracles run with the optimisation pass on, as in production
+        child_oracle(&args[i + 1], &args[i + 2]);
+    }
     let env = Env::from_env();
-    // c07c never needs optimised code in this process (children of the oracle keep it on)
+    // c07c never needs optimised code in this process
     hooks::set_skip_optimize(true);
     let threads = std::thread::available_parallelism().map(|n| n.get()).unwrap_or(8).min(16);
     let exe = driver::driver_path(&env.verif_dir, "drv_c07c");
-    let _ = (&args, &exe, threads);
+    if let Some(p) = replay_path() {
+        run_replay(&p, &exe);
+        return;
+    }
+    let t_start = Instant::now();
+    let mut report = Report::new("C07");
+    let mut rng = Rng::new(env.seed ^ 0x07c);
+
+    // ---- input streams
+    let mut sets: Vec<TSet> = Vec::new();
+    for c in generate_cases(&mut rng, env.budget(2, 60), env.budget(1500, 60_000)) {
+        sets.push(TSet { stream: if c.stream == "general" { "bcgen-general" } else { "bcgen-jump" }, origin: format!("case {} {} {:?}", c.id, c.shape, c.place), templates: c.templates() });
+    }
+    sets.extend(repo_sets(&mut report));
+    sets.extend(directed_sets());
+    sets.extend(kwargs_sets(&mut rng, env.budget(500, 10_000)));
+    let n_mut = env.budget(2500, 80_000);
+    let muts = mutation_sets(&mut rng, &sets, n_mut);
+    sets.extend(muts);
+
+    if std::env::var("C07C_DUMP").is_ok() {
+        // the real side alone (and the model's answer when the driver is there) for a few templates
+        let want = std::env::var("C07C_DUMP").unwrap_or_default();
+        if want == "rejected" {
+            // which hand-written templates the parser refuses, and why
+            for s in sets.iter().filter(|s| s.stream == "directed") {
+                let (name, src) = s.templates.last().unwrap();
+                match real_side(name, src) {
+                    RealOut::Rejected(e) => println!("REJECTED {src}\n    {}", e.lines().filter(|l| !l.trim().is_empty()).take(6).collect::<Vec<_>>().join(" / ")),
+                    RealOut::Panic(p) => println!("PANIC {src}\n    {p}"),
+                    RealOut::Compiled(_) => {
+                        if let Err(e) = build(&s.templates) {
+                            println!("NOT-REGISTERED {src}\n    {}", first_line(&e));
+                        }
+                    }
+                }
+            }
+            return;
+        }
+        let n: usize = want.parse().unwrap_or(8);
+        for s in sets.iter().filter(|s| s.stream == "directed").skip(1).take(n) {
+            let (name, src) = s.templates.last().unwrap();
+            print_case(&exe, name, src);
+            println!();
+        }
+        return;
+    }
+
+    // ---- cases: every distinct (name, source)
+    struct CaseRef {
+        set: usize,
+        tpl: usize,
+    }
+    let mut cases: Vec<CaseRef> = Vec::new();
+    let mut index: HashMap<String, usize> = HashMap::new();
+    for (si, s) in sets.iter().enumerate() {
+        for (ti, (n, src)) in s.templates.iter().enumerate() {
+            let key = case_key(n, src);
+            if !index.contains_key(&key) {
+                index.insert(key, cases.len());
+                cases.push(CaseRef { set: si, tpl: ti });
+            }
+        }
+    }
+    let case_tpl = |c: &CaseRef| -> &(String, String) { &sets[c.set].templates[c.tpl] };
+
+    // ---- real side, all cores
+    let outs: Vec<RealOut> = par_map(&cases, threads, |_, c| {
+        let (n, s) = case_tpl(c);
+        real_side(n, s)
+    });
+    let mut compiled_idx: Vec<usize> = Vec::new();
+    let mut real_panics: Vec<usize> = Vec::new();
+    let mut distinct: HashSet<&str> = HashSet::new();
+    for (i, o) in outs.iter().enumerate() {
+        let stream = sets[cases[i].set].stream;
+        report.count(&format!("stream.{stream}.templates"));
+        match o {
+            RealOut::Compiled(c) => {
+                report.count(&format!("stream.{stream}.compiled"));
+                report.count("outcome.compiled");
+                compiled_idx.push(i);
+                let n = n_instructions(c);
+                report.count(&format!("size.instructions.{}", match n { 0..=2 => "0-2", 3..=9 => "3-9", 10..=29 => "10-29", 30..=99 => "30-99", _ => "100+" }));
+                report.count(&format!("size.chunks.{}", match c.chunks.len() { 1 => "1", 2 => "2", 3 => "3", _ => "4+" }));
+                if n >= 3 {
+                    distinct.insert(c.wire.as_str());
+                }
+                for (_, l) in &c.chunks {
+                    for tok in l {
+                        report.count(&format!("instr.{}", split_tok(tok).0));
+                    }
+                }
+                ast_tags(&c.wire, &mut report);
+            }
+            RealOut::Rejected(_) => {
+                report.count(&format!("stream.{stream}.rejected-by-parser"));
+                report.count("outcome.rejected-by-parser");
+            }
+            RealOut::Panic(_) => {
+                report.count(&format!("stream.{stream}.real-compiler-panic"));
+                report.count("outcome.real-compiler-panic");
+                real_panics.push(i);
+            }
+        }
+    }
+    report.evaluations = compiled_idx.len() as u64;
+    report.distinct_nontrivial = distinct.len() as u64;
+    let reach = if cases.is_empty() { 0.0 } else { 100.0 * compiled_idx.len() as f64 / cases.len() as f64 };
+    report.count_n("reach.percent_of_templates_compiled", reach.round() as u64);
+    report.notes.push(format!("{} of {} distinct (name, source) templates are accepted by the real parser and reach the compiler ({reach:.1} %); the others are counted as rejected-by-parser", compiled_idx.len(), cases.len()));
+    if reach < 60.0 {
+        report.violation("model-mismatch", format!("only {reach:.1} % of the generated templates reach the compiler (at least 60 % required)"), serde_json::json!({"harness_bin": BIN, "detail": {"stage": "generator:reach"}}));
+    }
+
+    // ---- model side
+    let reqs: Vec<String> = compiled_idx.iter().map(|i| match &outs[*i] { RealOut::Compiled(c) => format!("compile {}", c.wire), _ => unreachable!() }).collect();
+    let answers: Vec<String> = match driver::run_batch_parallel(&exe, &reqs, threads) {
+        Ok(a) => a,
+        Err(e) => {
+            report.violation("model-mismatch", format!("compile:driver: model driver could not be run: {}", clip(&e, 300)), serde_json::json!({"harness_bin": BIN, "stage": "compile:driver", "detail": {"stage": "compile:driver", "error": e}}));
+            Vec::new()
+        }
+    };
+    let cmp: Vec<Option<(String, String)>> = if answers.is_empty() {
+        Vec::new()
+    } else {
+        let pairs: Vec<(usize, &String)> = compiled_idx.iter().copied().zip(answers.iter()).collect();
+        par_map(&pairs, threads, |_, (i, a)| match &outs[*i] { RealOut::Compiled(c) => compare(&canon_real(c), a), _ => None })
+    };
+    let mut mismatches: Vec<(usize, usize)> = Vec::new(); // (case, position among the compiled ones)
+    for (k, c) in cmp.iter().enumerate() {
+        report.model_comparisons += 1;
+        match c {
+            None => report.count("model.agreement"),
+            Some((stage, _)) => {
+                report.model_disagreements += 1;
+                report.count(&format!("model.mismatch.{}", stage_kind(stage)));
+                mismatches.push((compiled_idx[k], k));
+            }
+        }
+    }
+
+    // ---- second tie: hook vs what Template::new stored (optimisation off), per set that registers
+    let ties: Vec<TieOut> = par_map(&sets, threads, |_, s| tie_set(s, &index, &outs));
+    let mut tie_fail: Vec<(usize, usize, String)> = Vec::new();
+    let mut reg_panics: Vec<(usize, String)> = Vec::new();
+    for (si, t) in ties.iter().enumerate() {
+        let stream = sets[si].stream;
+        match t {
+            TieOut::NotRegistered(e) => {
+                report.count(&format!("tie.{stream}.set-not-registered"));
+                if sets[si].stream == "directed" && report.notes.len() < 10 && std::env::var("C07C_VERBOSE").is_ok() {
+                    report.notes.push(format!("directed set not registered: {} ({e})", clip(&sets[si].templates.last().unwrap().1, 100)));
+                }
+            }
+            TieOut::RegistrationPanic(e) => {
+                report.count(&format!("tie.{stream}.registration-panic"));
+                reg_panics.push((si, e.clone()));
+            }
+            TieOut::Checked(n, fails) => {
+                report.count(&format!("tie.{stream}.set-registered"));
+                report.count_n("tie.templates_compared", *n as u64);
+                report.oracle_checks += *n as u64;
+                report.oracle_failures += fails.len() as u64;
+                for (k, d) in fails {
+                    tie_fail.push((si, *k, d.clone()));
+                }
+            }
+        }
+    }
+    for (si, k, d) in tie_fail.iter().take(3) {
+        let (n, s) = &sets[*si].templates[*k];
+        report.violation(
+            "model-mismatch",
+            format!("hook:template-new: compile_stage_wire and the registered template differ on `{}` ({n}): {}", clip(s, 300), clip(d, 400)),
+            serde_json::json!({"harness_bin": BIN, "stage": "hook:template-new", "name": n, "source": s, "templates": sets[*si].templates, "detail": {"stage": "hook:template-new", "difference": d}}),
+        );
+    }
+
+    // ---- a panic of the real compiler on an AST its parser accepted
+    let mut seen_panic: HashSet<String> = HashSet::new();
+    for i in real_panics.iter() {
+        let RealOut::Panic(p) = &outs[*i] else { continue };
+        if !seen_panic.insert(p.chars().take(60).collect()) || seen_panic.len() > 3 {
+            continue;
+        }
+        let set = &sets[cases[*i].set];
+        let (n, s) = case_tpl(&cases[*i]);
+        // smallest source on which the compiler still panics
+        let mut best = s.clone();
+        let t0 = Instant::now();
+        'outer: while t0.elapsed() < Duration::from_secs(4) {
+            let segs = segments(&best);
+            for k in 0..segs.len() {
+                let cand = segs[..k].concat() + &segs[k + 1..].concat();
+                if matches!(real_side(n, &cand), RealOut::Panic(_)) {
+                    best = cand;
+                    continue 'outer;
+                }
+            }
+            break;
+        }
+        let alone = vec![(n.clone(), best.clone())];
+        let model = hooks::template_wire(&best, Delimiters::default()).ok().and_then(|w| driver::run_batch(&exe, &[format!("compile {w}")]).ok()).and_then(|a| a.into_iter().next());
+        report.oracle_checks += 1;
+        match build(&alone) {
+            Err(e) if e.starts_with("panic") => {
+                report.oracle_failures += 1;
+                report.violation(
+                    "property",
+                    format!("registering `{}` panics in the compiler ({}); the parser accepts the template", clip(&best, 300), clip(&e, 200)),
+                    serde_json::json!({"harness_bin": BIN, "stage": "real:panic", "name": n, "source": best, "templates": alone, "expect_registration_error": true, "model": model,
+                        "original_source": clip(s, 2000), "stream": set.stream, "origin": set.origin, "detail": {"stage": "real:panic", "panic": p}}),
+                );
+            }
+            other => {
+                report.violation(
+                    "model-mismatch",
+                    format!("hook:template-new: compile_stage_wire panics ({}) on `{}` but registration says {:?}", clip(p, 200), clip(&best, 300), other.map(|_| "accepted").map_err(|e| first_line(&e))),
+                    serde_json::json!({"harness_bin": BIN, "stage": "hook:template-new", "name": n, "source": best, "templates": alone, "model": model, "detail": {"stage": "hook:template-new", "panic": p}}),
+                );
+            }
+        }
+        if let Some(m) = &model {
+            if m.starts_with("ok scoped=1") {
+                report.model_disagreements += 1;
+                report.violation(
+                    "model-mismatch",
+                    format!("compile:panic: the real compiler panics ({}) on `{}`, the model compiles it", clip(p, 200), clip(&best, 300)),
+                    serde_json::json!({"harness_bin": BIN, "stage": "compile:panic", "name": n, "source": best, "templates": alone, "real": format!("panic {p}"), "model": m, "detail": {"stage": "compile:panic"}}),
+                );
+            }
+        }
+    }
+    for (si, e) in reg_panics.iter().take(2) {
+        if !real_panics.is_empty() {
+            break; // already reported through the hook
+        }
+        report.oracle_failures += 1;
+        report.violation(
+            "property",
+            format!("registering the set of `{}` panics: {}", clip(&sets[*si].templates.last().map(|t| t.1.clone()).unwrap_or_default(), 300), clip(e, 200)),
+            serde_json::json!({"harness_bin": BIN, "stage": "real:panic", "templates": sets[*si].templates, "expect_registration_error": true, "detail": {"stage": "real:panic", "panic": e}}),
+        );
+    }
+
+    // ---- mismatches: first 5 distinct stage kinds; shrink, oracles, neighbours
+    let mut kinds_done: HashSet<String> = HashSet::new();
+    let t_inv = Instant::now();
+    for (n_done, (ci, k)) in mismatches.iter().enumerate() {
+        let Some((stage, what)) = &cmp[*k] else { continue };
+        let kind = stage_kind(stage);
+        if kinds_done.contains(&kind) || kinds_done.len() >= 5 {
+            continue;
+        }
+        if t_inv.elapsed() > Duration::from_secs(env.budget(60, 600) as u64) {
+            report.notes.push(format!("{} further mismatches not followed up (time)", mismatches.len() - n_done));
+            break;
+        }
+        kinds_done.insert(kind);
+        let set = &sets[cases[*ci].set];
+        let (n, s) = case_tpl(&cases[*ci]);
+        let RealOut::Compiled(c) = &outs[*ci] else { continue };
+        let first = Diff { stage: stage.clone(), what: what.clone(), real: sections_text(&canon_real(c)), model: answers[*k].clone() };
+        investigate(&mut report, &exe, &mut rng, &env, set, n, s, &first, 1000 + n_done);
+    }
+
+    // ---- samples, rule
+    for k in [0usize, compiled_idx.len() / 3, compiled_idx.len() / 2, compiled_idx.len().saturating_sub(1)] {
+        let Some(i) = compiled_idx.get(k) else { continue };
+        let RealOut::Compiled(c) = &outs[*i] else { continue };
+        let (n, s) = case_tpl(&cases[*i]);
+        report.sample(serde_json::json!({"stream": sets[cases[*i].set].stream, "name": n, "source": clip(s, 600), "ast": clip(&c.wire, 600), "real": clip(&sections_text(&canon_real(c)), 1200), "model": answers.get(k).map(|a| clip(a, 1200)), "agree": cmp.get(k).map(|c| c.is_none())}));
+    }
+    if let Some(i) = (0..cases.len()).find(|i| matches!(outs[*i], RealOut::Rejected(_))) {
+        if let RealOut::Rejected(e) = &outs[i] {
+            report.sample(serde_json::json!({"stream": sets[cases[i].set].stream, "source": clip(&case_tpl(&cases[i]).1, 300), "rejected-by-parser": first_line(e)}));
+        }
+    }
+    report.exhaustive = false;
+    report.rule = format!(
+        "evaluations = distinct (name, source) templates that the real parser accepts (streams: bytecode generator, the repository's snapshot / bench / doc templates whole and line by line, a directed list over every compiler construct, generated calls with 2 to 6 keyword arguments, tag-level mutants); each one's real AST is compiled by the Lean model (drv_c07c) and compared with the real compiler's listing (main, every block, every component, call tables; spans by presence). Non-trivial: distinct by AST wire text among those whose real listing has at least 3 instructions. oracle_checks = templates whose hook output was compared with the registered template (call_tables, stored_chunks_wire; optimisation off){}.",
+        if mismatches.is_empty() { "" } else { " + renders and checker runs while following up mismatches" }
+    );
+    report.count_n("time.total_ms", t_start.elapsed().as_millis() as u64);
+    tera_verif_harness::childrun::cleanup();
+    report.write(&out_path());
 }
